@@ -167,6 +167,11 @@ pub fn run(tier: &str, seed: u64, replay: Option<String>) -> i32 {
         for p in &bridges {
             steps.push(json!({"base": b, "edits": [MEdit::NumberNegated{ptr: p.clone()}], "what": "single"}));
             n_single += 1;
+            // lengths just below zero are negative too
+            for tiny in [-0.001f64, -0.000001] {
+                steps.push(json!({"base": b, "edits": [MEdit::SetValue{ptr: p.clone(), value: json!(tiny)}], "what": "single"}));
+                n_single += 1;
+            }
         }
         // seeded subsets of 2..20 simultaneous faults
         let all: Vec<MEdit> = links
